@@ -352,3 +352,22 @@ package lua
 //@ requires 0 <= L.currentFrame.ReturnBase && L.currentFrame.ReturnBase <= lb(L) + opA(inst) && L.currentFrame.NRet >= -1
 //@ requires forall i int :: 0 <= i && i < $sp(L.stack) ==> $frame(L.stack, i) != nil && $frame(L.stack, i).Fn != nil
 //@ modifies everything
+
+// ---------------------------------------------------------------------------
+// Coroutines (C06). status(co): "running" if it is the running coroutine, "suspended", "normal" if it is active but
+// not running (it has resumed another coroutine, directly or indirectly: it is an ancestor of the running thread
+// through Parent), "dead" (manual §5.2).
+// ---------------------------------------------------------------------------
+
+//@ uninterp ancestor(c *LState, t *LState) bool
+//@ axiom ancestor_def : forall c *LState, t *LState :: ancestor(c, t) <==> (c != nil && c.Parent != nil && (c.Parent == t || ancestor(c.Parent, t)))
+
+//@ func (*LState).Status [C06]
+//@ requires ls != nil && th != nil && ls.G != nil && ls.G.CurrentThread != nil
+//@ noraise
+//@ ensures  "dead": result == "dead" <==> th.Dead
+//@ ensures  "running": result == "running" <==> !th.Dead && ls.G.CurrentThread == th
+//@ ensures  "normal": result == "normal" <==> !th.Dead && ls.G.CurrentThread != th && ancestor(ls.G.CurrentThread, th)
+//@ ensures  "suspended": result == "suspended" <==> !th.Dead && ls.G.CurrentThread != th && !ancestor(ls.G.CurrentThread, th)
+//@ modifies nothing
+//@ loop 1 invariant !th.Dead && ls.G.CurrentThread != th && status == "suspended" && (ancestor(ls.G.CurrentThread, th) <==> ancestor(p, th))
